@@ -449,6 +449,26 @@ def match_known(entry, v):
 
 def replay(ctx, case):
     inp = case.get("input", case)
+    if "line1" not in inp and "ecc_column" not in inp:
+        # a broken-tie record (no failing input was found): re-run the recorded correspondence disagreements
+        for b in case.get("broken", []):
+            print("broken tie:", b.get("stage"), str(b.get("detail"))[:300].replace("\n", " | "))
+        still = 0
+        for d in case.get("first_disagreements", []):
+            c = d.get("case", {})
+            if "line1" not in c:
+                continue
+            out = ctx.driver().run(["c02 %s %s" % (lib.s2h(c["line1"]), lib.s2h(c["line2"]))])[0]
+            before = len(ctx.disagreements)
+            compare_case(ctx, c["line1"], c["line2"], out, "replay")
+            if len(ctx.disagreements) > before:
+                still += 1
+                print("still disagrees:", c["line1"], "|", c["line2"], "->", ctx.disagreements[-1]["implementation"], "vs model",
+                      ctx.disagreements[-1]["model"])
+        if not case.get("first_disagreements"):
+            print("(proof/build tie: re-run ./check C02 to rebuild the theorems against the current source)")
+            return 1
+        return 1 if still else 0
     if "ecc_column" in inp:
         kk = int(inp["ecc_column"])
         v = kk * 10 ** -7
